@@ -44,7 +44,7 @@ ShapesM == {
   [imps |-> <<"f","m">>,     lf |-> 2, lg |-> 0, lm |-> 2, feat |-> <<"exports","data","atomics">>],
   [imps |-> <<>>,            lf |-> 1, lg |-> 0, lm |-> 1, feat |-> <<"data","atomics">>],
   [imps |-> <<"m">>,         lf |-> 1, lg |-> 0, lm |-> 0, feat |-> <<"exports","atomics">>],
-  [imps |-> <<"f","m","m">>, lf |-> 1, lg |-> 0, lm |-> 1, feat |-> <<"exports","data","atomics","spare">>] }
+  [imps |-> <<"f","m","m">>, lf |-> 1, lg |-> 0, lm |-> 2, feat |-> <<"exports","data","atomics","spare">>] }
 Shapes == CASE Camp = "f" -> ShapesF [] Camp = "g" -> ShapesG [] Camp = "m" -> ShapesM
 
 Has(sh, f) == \E i \in DOMAIN sh.feat : sh.feat[i] = f
